@@ -54,9 +54,19 @@ def _reset_state():
         S.reset_locks(m)
 
 
+_WATCHED = [None]
+
+
 def watched_files():
-    d = os.path.join(os.path.abspath(REPO), "permuta", "perm_sets")
-    return frozenset(os.path.join(d, f) for f in os.listdir(d) if f.endswith(".py"))
+    """The files whose every line is a scheduling point (permuta/perm_sets/*.py) plus, as
+    (file, first line) pairs, every state-writing function elsewhere in the package (memo tables on
+    the shared pattern objects, class-level tables of other modules): see sched.state_writers."""
+    if _WATCHED[0] is None:
+        root = os.path.join(os.path.abspath(REPO), "permuta")
+        d = os.path.join(root, "perm_sets")
+        files = frozenset(os.path.join(d, f) for f in os.listdir(d) if f.endswith(".py"))
+        _WATCHED[0] = files | S.state_writers(root, skip=files)
+    return _WATCHED[0]
 
 
 # --------------------------------------------------------------------------------------------
